@@ -283,7 +283,7 @@ def main(argv=None):
             samples.append(r['sample'])
 
     # ---- replay counterexamples (dedup by harness+claim, cap per harness)
-    confirmed, unconfirmed = [], []
+    confirmed, unconfirmed, soft_unconfirmed = [], [], 0
     seen_keys = {}
     for c in cexs:
         key = (c.get('harness'), c.get('claim'))
@@ -296,9 +296,12 @@ def main(argv=None):
         for c, (path, res) in zip(to_replay, tp.map(lambda c: replay_subprocess(pid, c), to_replay)):
             if res.get('reproduced'):
                 confirmed.append((c, path, res))
+            elif c.get('soft'):
+                soft_unconfirmed += 1
             else:
                 unconfirmed.append((c, path, res))
     validated += len(to_replay)
+    inconcl += soft_unconfirmed
 
     # ---- known findings
     known = load_known(pid)
